@@ -1,5 +1,141 @@
+import PsiModel.Cache
 import Drivers.Common
-/-! Stub: replaced by the driver of the `Cache` model. -/
+/-! Line protocol of the `cache` model (C10).
+
+Declarations (answer `ok`): `variant copy|alias`, `specs N`, `arrays N`, `key <id> <lens> <inner|->`.
+Memo ops: `call K` → `h<N> clean|dirty c.i,…`, `read H` → `clean|dirty …` (relative to the value handed out plus the caller's own writes through H), `mutate H C I` → `ok`,
+`scribble` → `ok`.  World ops: `new S`, `qnew kind p`, `copy O`, `clone Q` → `o<N>`; `next O n`,
+`pop Q n` → the lineage name of the chunk; `reset O`, `append Q G t d`, `appendw Q W t d`,
+`seed x`, `rand n`, `wwrite W` → `ok`. -/
 namespace Psi.Driver.Cache
-def main : IO Unit := pure ()
+open Psi.Driver Psi.Cache
+
+structure DState where
+  variant : Variant := .copy
+  table : List (List Nat × Option Nat) := []     -- per key id: component lengths, wrapped key
+  cs : State Nat Nat Nat := State.init
+  expect : List (List (List Nat)) := []           -- per handle: the value handed out + the caller's own writes
+  w : World := World.init
+
+def sigOf (table : List (List Nat × Option Nat)) : Sig Nat Nat Nat :=
+  { compute := fun k =>
+      match table[k]? with
+      | some (lens, _) => lens.map fun n => List.replicate n 0
+      | none => []
+    wraps := fun w =>
+      match table[w]? with
+      | some (_, some i) => i
+      | _ => 0 }
+
+def keyOf (table : List (List Nat × Option Nat)) (k : Nat) : Option (Key Nat Nat) :=
+  match table[k]? with
+  | some (_, some _) => some (.wrap k)
+  | some (_, none) => some (.leaf k)
+  | none => none
+
+/-- positions `c.i` where `got` differs from `ref` -/
+def diffPositions (got ref : List (List Nat)) : List String :=
+  let rec comp (c : Nat) : List (List Nat) → List (List Nat) → List String
+    | g :: gs, r :: rs =>
+      let bad := (List.range g.length).filter fun i => g[i]? != r[i]?
+      bad.map (fun i => s!"{c}.{i}") ++ comp (c + 1) gs rs
+    | _, _ => []
+  comp 0 got ref
+
+def verdict (got : Option (List (List Nat))) (ref : List (List Nat)) : String :=
+  match got with
+  | none => "dangling"
+  | some g =>
+    match diffPositions g ref with
+    | [] => "clean"
+    | l => "dirty " ++ ",".intercalate l
+
+def showLin (l : Lin) : String :=
+  s!"g{l.spec}[" ++ ",".intercalate (l.chunks.map toString) ++ "]"
+
+def showEv : Ev → String
+  | .app src t d => "a(" ++ showLin src ++ s!")x{t}d{d}"
+  | .appw w t d p => s!"w{w}" ++ (if p then "!" else "") ++ s!"x{t}d{d}"
+  | .pop n => s!"p{n}"
+
+def showOut : Out → String
+  | .ok => "ok"
+  | .obj i => s!"o{i}"
+  | .chunk c => showLin ⟨c.spec, c.before⟩ ++ s!"+{c.n}"
+  | .qchunk k p e n => s!"q{k}:{p}" ++ "{" ++ ";".intercalate (e.map showEv) ++ "}" ++ s!"+{n}"
+  | .bad => "bad-op"
+
+def parseWOp (ws : List String) : Option WOp :=
+  match ws with
+  | ["new", s] => do pure (.new (← parseNat? s))
+  | ["qnew", k, p] => do pure (.qnew k (← parseNat? p))
+  | ["next", o, n] => do pure (.next (← parseNat? o) (← parseNat? n))
+  | ["reset", o] => do pure (.reset (← parseNat? o))
+  | ["copy", o] => do pure (.copy (← parseNat? o))
+  | ["clone", o] => do pure (.clone (← parseNat? o))
+  | ["append", q, g, t, d] => do pure (.append (← parseNat? q) (← parseNat? g) (← parseNat? t) (← parseNat? d))
+  | ["appendw", q, a, t, d] => do pure (.appendw (← parseNat? q) (← parseNat? a) (← parseNat? t) (← parseNat? d))
+  | ["pop", q, n] => do pure (.pop (← parseNat? q) (← parseNat? n))
+  | ["seed", x] => do pure (.seed (← parseNat? x))
+  | ["rand", n] => do pure (.rand (← parseNat? n))
+  | ["wwrite", a] => do pure (.wwrite (← parseNat? a))
+  | _ => none
+
+def step (s : DState) (ws : List String) : DState × String :=
+  let sg := sigOf s.table
+  match ws with
+  | ["variant", "copy"] => ({ s with variant := .copy }, "ok")
+  | ["variant", "alias"] => ({ s with variant := .alias }, "ok")
+  | ["specs", n] =>
+    match parseNat? n with
+    | some n => ({ s with w := { s.w with nspecs := n } }, "ok")
+    | none => (s, "bad-op")
+  | ["arrays", n] =>
+    match parseNat? n with
+    | some n => ({ s with w := { s.w with narrays := n } }, "ok")
+    | none => (s, "bad-op")
+  | ["key", i, lens, inner] =>
+    match parseNat? i, parseNats? lens with
+    | some i, some lens =>
+      if i ≠ s.table.length then (s, "bad-op") else
+      if inner == "-" then ({ s with table := s.table ++ [(lens, none)] }, "ok") else
+      match parseNat? inner with
+      | some j => ({ s with table := s.table ++ [(lens, some j)] }, "ok")
+      | none => (s, "bad-op")
+    | _, _ => (s, "bad-op")
+  | ["call", k] =>
+    match (parseNat? k).bind (keyOf s.table) with
+    | some key =>
+      let h := s.cs.handles.length
+      let cs := call s.variant sg s.cs key
+      ({ s with cs := cs, expect := s.expect ++ [sg.value key] },
+        s!"h{h} " ++ verdict (readHandle cs h) (sg.value key))
+    | none => (s, "bad-op")
+  | ["read", h] =>
+    match parseNat? h with
+    | some h =>
+      match s.cs.handles[h]?, s.expect[h]? with
+      | some as, some e => (s, verdict (readAll s.cs.heap as) e)
+      | _, _ => (s, "bad-handle")
+    | none => (s, "bad-op")
+  | ["mutate", h, c, i] =>
+    match parseNat? h, parseNat? c, parseNat? i with
+    | some h, some c, some i =>
+      match mutate s.cs h c i 1 with
+      | .ok cs =>
+        let e := s.expect.modify h fun t => t.modify c fun a => a.set i 1
+        ({ s with cs := cs, expect := e }, "ok")
+      | .error .badHandle => (s, "bad-handle")
+      | .error .badIndex => (s, "bad-index")
+    | _, _, _ => (s, "bad-op")
+  | ["scribble"] =>
+    ({ s with cs := scribble s.cs 1, expect := s.expect.map fun t => t.map fun a => a.map fun _ => 1 }, "ok")
+  | _ =>
+    match parseWOp ws with
+    | some op =>
+      let r := wstep s.w op
+      ({ s with w := r.1 }, showOut r.2)
+    | none => (s, "bad-op")
+
+def main : IO Unit := run ({} : DState) step
 end Psi.Driver.Cache
